@@ -531,7 +531,7 @@ class ModuleNormalizer:
                 i = 0
                 while i < len(stmts):
                     s_ = stmts[i]
-                    if isinstance(s_, ast.Assign) and len(s_.targets) == 1 and isinstance(s_.targets[0], (ast.Tuple, ast.List)) and isinstance(s_.value, (ast.Tuple, ast.List)) and all(isinstance(t, ast.Name) and t.id not in frozen for t in s_.targets[0].elts):
+                    if q in self.fn and isinstance(s_, ast.Assign) and len(s_.targets) == 1 and isinstance(s_.targets[0], (ast.Tuple, ast.List)) and isinstance(s_.value, (ast.Tuple, ast.List)) and all(isinstance(t, ast.Name) and t.id not in frozen and t.id not in {a.arg for a in node.args.args} for t in s_.targets[0].elts):
                         parts = _split_parallel(s_.targets[0], s_.value)
                         if len(parts) > 1 or (len(parts) == 1 and isinstance(parts[0].targets[0], ast.Name)):
                             parts = [_relocate(x, s_) for x in parts]
